@@ -26,9 +26,12 @@ assert os.path.abspath(mpilot.__file__).startswith(os.path.abspath(os.environ["V
 IDS = ["A", "B", "Slope", "res_1", "_x", "Elev2", "InFieldName", "x", "True", "False", "None"]
 CMDS = ["EEMSRead", "Sum", "CvtToFuzzy", "Copy", "Cmd", "READ", "FuzzyOr"]
 ARGS = ["InFieldName", "InFileName", "P", "Weights", "Metadata", "Q_1", "a"]
-PLAINS = ["abc", "data.csv", "/tmp/in.nc", "../out/x.csv", "C:\\temp\\a.csv", "50%", "a-b", "x.y.z", "LowToHigh", "Float", "é", "naïve", "R2D2", "_", "€uro"]
+PLAINS = ["abc", "data.csv", "/tmp/in.nc", "../out/x.csv", "C:\\temp\\a.csv", "50%", "a-b", "x.y.z", "LowToHigh", "Float", "é", "naïve", "R2D2", "_", "€uro", "Don\u2019t", "\u201cbest\u201d", "a\u00a0b"]
 STRS = ["", "text", "two words", "it's", 'say "hi"', "back\\slash", "tab\there", "line\nbreak", "é à ü", "\u2013 dash", "中文", "a,b=(c)[d]:#e", "  padded  ", "C:\\temp\\new.csv",
-        "'quoted'", '"dq"', "ends with \\", "\\n literal", "x\ry", "\x07bell", "percent % and #hash"]
+        "'quoted'", '"dq"', "ends with \\", "\\n literal", "x\ry", "\x07bell", "percent % and #hash",
+        # characters an editor or a helpful pre-processing step may touch: typographic quotes and dashes, no-break and zero-width
+        # spaces, a byte-order mark, full-width punctuation, a combining accent, an astral code point
+        "Don\u2019t build here", "the \u201cbest\u201d sites", "\u2018q\u2019", "a\u00a0b", "\ufeffbom", "zero\u200bwidth", "\uff08x\uff09\uff0c\uff1a", "e\u0301", "\U0001F600 ok", "\u00ab guillemets \u00bb"]
 
 
 class R(object):
@@ -409,7 +412,7 @@ def main():
             lines.append(")")
             pad()
             fault = rnd.choice(["unknown-command", "bad-number", "missing-result", "undeclared", "missing-arg", "duplicate", "fuzzy", "bad-path",
-                                "rt-empty", "rt-header", "rt-weights", "rt-dupraw"])
+                                "rt-empty", "rt-header", "rt-weights", "rt-dupraw", "nested-list"])
             start = len(lines) + 1
             allowed = None      # run-time faults: the lines an error may carry (None = no line at all, which claims nothing)
             if fault == "unknown-command":
@@ -426,6 +429,11 @@ def main():
                 else:     # the value starts on a later line than its argument name
                     lines += ["B = CvtToFuzzy(", "    InFieldName = A,", "    TrueThreshold =", "", "        abc,", "    FalseThreshold = 0", ")"]
                     want, cls = start + 2, "ParameterNotValid"
+            elif fault == "nested-list":
+                # a list where a number is expected, as an element of a list argument written over several lines: the offending
+                # ARGUMENT starts at its name, wherever the inner bracket is
+                lines += ["B = WeightedSum(", "    InFieldNames = [A, A],", "", "    Weights = [", "        1,", "", "        [0.25, 0.25]", "    ]", ")"]
+                want, cls = start + 3, "ParameterNotValid"
             elif fault == "missing-result":
                 if rnd.random() < 0.5:
                     lines += ["B = Sum(", "    InFieldNames = [", "        A,", "        Ghost", "    ]", ")"]
